@@ -111,7 +111,7 @@ inductive Micro (U : Universe) (Vp : Nat → Nat → Nat → Prop) : State → S
       Micro U Vp s { s with headers := h :: s.headers.filter (fun x => x.id != h.id) }
   /-- `saveVerificationToHeader` -/
   | voteHeader {s} (tgt order src srcH : Nat) (ok : Bool) (th : Header) : s.header tgt = some th →
-      Micro U Vp s { s with headers := { th with sup := addSupLink th.sup src srcH { slot := order, valid := ok } } :: s.headers.filter (fun h => h.id != tgt) }
+      Micro U Vp s { s with headers := { th with sup := addSupLinkH th.sup src srcH { slot := order, valid := ok } } :: s.headers.filter (fun h => h.id != tgt) }
   | post {s} (v : Nat × Nat × Nat) : (Vp v.1 v.2.1 v.2.2 ∨ some v.1 = s.cfg.me) →
       Micro U Vp s { s with posted := s.posted ++ [v] }
 
@@ -528,7 +528,7 @@ def ownVote (s : State) (b : Header) (tree1 : Tree) (target : Ckpt) : List SupLi
       if me ≥ s.cfg.nVal then (b.sup, s.posted)
       else if target.sup.any (fun l => hasSlot l me) then (b.sup, s.posted)
       else if !(({ s with tree := tree1 } : State).verifyVerification tree1 me src.hash src.height b.id b.height true) then (b.sup, s.posted)
-      else (addSupLink b.sup src.hash src.height { slot := me, valid := true },
+      else (addSupLinkH b.sup src.hash src.height { slot := me, valid := true },
             s.posted ++ [(me, src.hash, b.id)])
 
 def applyRest (s : State) (b : Header) (tree1 : Tree) : State × Bool × List SupLink :=
@@ -568,7 +568,7 @@ theorem ownVote_cases (s : State) (b : Header) (tree1 : Tree) (target : Ckpt) :
     ownVote s b tree1 target = (b.sup, s.posted) ∨
     ∃ me src, s.cfg.me = some me ∧ me < s.cfg.nVal ∧ lastJustifiedAncestor tree1 b.id = some src ∧
       ({ s with tree := tree1 } : State).verifyVerification tree1 me src.hash src.height b.id b.height true = true ∧
-      ownVote s b tree1 target = (addSupLink b.sup src.hash src.height { slot := me, valid := true },
+      ownVote s b tree1 target = (addSupLinkH b.sup src.hash src.height { slot := me, valid := true },
         s.posted ++ [(me, src.hash, b.id)]) := by
   unfold ownVote
   split
@@ -643,7 +643,7 @@ theorem applyRest_micro (s : State) (b : Header) (tree1 : Tree) (hU : HU U tree1
       · rw [h]
         refine key _ _ ?_ ?_
         · intro l hl sg hsg hv
-          rcases mem_addSupLink hl with hl | ⟨hls, hsigs⟩
+          rcases mem_addSupLinkH hl with hl | ⟨hls, _, hsigs⟩
           · exact Or.inl (hb.2 l hl sg hsg hv)
           · rcases hsigs sg hsg with rfl | ⟨l0, hl0, hl0s, _, hsg0⟩
             · right; simp [hls]
@@ -920,7 +920,7 @@ def authTail (s : State) (order src tgt : Nat) (sigOk : Bool) (source : CkptRec)
   match s.header tgt with
   | none => ({ s with tree := tree', ckpts := ckpts', posted := s.posted ++ [(order, src, tgt)] }, .err)
   | some th =>
-    let th' := { th with sup := addSupLink th.sup src source.height { slot := order, valid := sigOk } }
+    let th' := { th with sup := addSupLinkH th.sup src source.height { slot := order, valid := sigOk } }
     let s1 := { s with tree := tree', ckpts := ckpts', posted := s.posted ++ [(order, src, tgt)], headers := th' :: s.headers.filter (fun h => h.id != tgt) }
     let newBest := s1.bestChain
     if newBest == s.bestChain then (s1, .ok) else
@@ -1000,10 +1000,10 @@ theorem authVerification_micro (s : State) (order src tgt : Nat) (sigOk : Bool) 
                 · exact ⟨m12.tail m3, hp.1, hp.2.1, hp.2.2.1, hU'⟩
                 · rename_i th hth
                   have m4 : Micro U Vp { s with tree := tree', ckpts := saveAffected tree' s.ckpts tgt srcs, posted := s.posted ++ [(order, src, tgt)] }
-                      { s with tree := tree', ckpts := saveAffected tree' s.ckpts tgt srcs, posted := s.posted ++ [(order, src, tgt)], headers := { th with sup := addSupLink th.sup src source.height { slot := order, valid := sigOk } } :: s.headers.filter (fun h => h.id != tgt) } :=
+                      { s with tree := tree', ckpts := saveAffected tree' s.ckpts tgt srcs, posted := s.posted ++ [(order, src, tgt)], headers := { th with sup := addSupLinkH th.sup src source.height { slot := order, valid := sigOk } } :: s.headers.filter (fun h => h.id != tgt) } :=
                     Micro.voteHeader (s := { s with tree := tree', ckpts := saveAffected tree' s.ckpts tgt srcs, posted := s.posted ++ [(order, src, tgt)] }) tgt order src source.height sigOk th hth
                   have hth' := lookupHeader_mem hth
-                  have p1 : Pre U Vp { s with tree := tree', ckpts := saveAffected tree' s.ckpts tgt srcs, posted := s.posted ++ [(order, src, tgt)], headers := { th with sup := addSupLink th.sup src source.height { slot := order, valid := sigOk } } :: s.headers.filter (fun h => h.id != tgt) } := by
+                  have p1 : Pre U Vp { s with tree := tree', ckpts := saveAffected tree' s.ckpts tgt srcs, posted := s.posted ++ [(order, src, tgt)], headers := { th with sup := addSupLinkH th.sup src source.height { slot := order, valid := sigOk } } :: s.headers.filter (fun h => h.id != tgt) } := by
                     refine ⟨?_, ?_, hp.2.2.1, hU'⟩
                     · intro h hh hg
                       rcases List.mem_cons.mp hh with rfl | hm
@@ -1015,10 +1015,10 @@ theorem authVerification_micro (s : State) (order src tgt : Nat) (sigOk : Bool) 
                       · exact hp.2.1 h (List.mem_filter.mp hm).1 hg
                   split
                   · exact ⟨(m12.tail m3).tail m4, p1⟩
-                  · have hc := tryReorganize_core { s with tree := tree', ckpts := saveAffected tree' s.ckpts tgt srcs, posted := s.posted ++ [(order, src, tgt)], headers := { th with sup := addSupLink th.sup src source.height { slot := order, valid := sigOk } } :: s.headers.filter (fun h => h.id != tgt) }
-                      (State.bestChain { s with tree := tree', ckpts := saveAffected tree' s.ckpts tgt srcs, posted := s.posted ++ [(order, src, tgt)], headers := { th with sup := addSupLink th.sup src source.height { slot := order, valid := sigOk } } :: s.headers.filter (fun h => h.id != tgt) })
-                    have ho := tryReorganize_orphans { s with tree := tree', ckpts := saveAffected tree' s.ckpts tgt srcs, posted := s.posted ++ [(order, src, tgt)], headers := { th with sup := addSupLink th.sup src source.height { slot := order, valid := sigOk } } :: s.headers.filter (fun h => h.id != tgt) }
-                      (State.bestChain { s with tree := tree', ckpts := saveAffected tree' s.ckpts tgt srcs, posted := s.posted ++ [(order, src, tgt)], headers := { th with sup := addSupLink th.sup src source.height { slot := order, valid := sigOk } } :: s.headers.filter (fun h => h.id != tgt) })
+                  · have hc := tryReorganize_core { s with tree := tree', ckpts := saveAffected tree' s.ckpts tgt srcs, posted := s.posted ++ [(order, src, tgt)], headers := { th with sup := addSupLinkH th.sup src source.height { slot := order, valid := sigOk } } :: s.headers.filter (fun h => h.id != tgt) }
+                      (State.bestChain { s with tree := tree', ckpts := saveAffected tree' s.ckpts tgt srcs, posted := s.posted ++ [(order, src, tgt)], headers := { th with sup := addSupLinkH th.sup src source.height { slot := order, valid := sigOk } } :: s.headers.filter (fun h => h.id != tgt) })
+                    have ho := tryReorganize_orphans { s with tree := tree', ckpts := saveAffected tree' s.ckpts tgt srcs, posted := s.posted ++ [(order, src, tgt)], headers := { th with sup := addSupLinkH th.sup src source.height { slot := order, valid := sigOk } } :: s.headers.filter (fun h => h.id != tgt) }
+                      (State.bestChain { s with tree := tree', ckpts := saveAffected tree' s.ckpts tgt srcs, posted := s.posted ++ [(order, src, tgt)], headers := { th with sup := addSupLinkH th.sup src source.height { slot := order, valid := sigOk } } :: s.headers.filter (fun h => h.id != tgt) })
                     exact ⟨((m12.tail m3).tail m4).tail (Micro.frame hc), Pre.of_core U Vp p1 hc ho⟩
 
 end
